@@ -9,6 +9,11 @@ for l in open('/verif/properties.jsonl'):
     p = json.loads(l)
     if p['id'] == pid:
         prop = f"{p['id']}: {p['title']}\n\n{p['statement']}\n\nQuantified over: {p['quantifier']['text']}\n"
+        if os.environ.get("MUT_ANCHORS"):
+            prop += "\nMechanisms (where the behaviour lives):\n" + "".join(
+                f" - {m['name']}  [{m['where']}]\n" for m in p['anchors']['mechanism'])
+            prop += "Files: " + ", ".join(p['anchors']['files']) + "\n"
+            prop += "Observed at: " + "; ".join(p['anchors']['observe_at']) + "\n"
 t = open(os.environ.get("MUT_TEMPLATE", "/verif/seeded/PROMPT_TEMPLATE.txt")).read()
 t = t.replace('__WT__', f'/tmp/wt_{pid}').replace('__PROP__', prop).replace('__PID__', pid).replace('__N__', n)
 open(f'/tmp/mut_prompt_{pid}.txt', 'w').write(t)
